@@ -197,3 +197,24 @@ pub open spec fn cop_post(w: World, op: COp) -> World {
             w_event(oper_store(w_auth(w, owner), owner, operator, live), ApproveForAll { owner: owner, operator: operator, live_until_ledger: live }.ev()),
     }
 }
+
+// ---- find_bit_in_item (also proved completely by Kani on the verbatim text) ----
+pub proof fn lemma_fbi_none(num: u32, start: int)
+    requires 0 <= start, forall|p: int| start <= p < 32 ==> (num & #[trigger] pos_mask(p)) == 0,
+    ensures fbi(num, start).is_none(),
+    decreases 32 - start
+{
+    if start < 32 { lemma_fbi_none(num, start + 1); }
+}
+pub proof fn lemma_fbi_some(num: u32, start: int, q: int)
+    requires 0 <= start <= q < 32, forall|p: int| start <= p < q ==> (num & #[trigger] pos_mask(p)) == 0, (num & pos_mask(q)) != 0,
+    ensures fbi(num, start) == Some(q),
+    decreases q - start
+{
+    if start < q { lemma_fbi_some(num, start + 1, q); }
+}
+pub proof fn lemma_zero_no_bits(m: u32)
+    ensures (0u32 & m) == 0,
+{
+    assert((0u32 & m) == 0) by (bit_vector);
+}
